@@ -218,7 +218,8 @@ def large_suffix_history(args):
     record size, then reopen: whatever the truncation leaves behind the new end must never be read as entries again, and the
     kept / re-appended entries must all be there (the clearing of a removed tail is the part of a truncation whose cost grows
     with the tail, i.e. where a cap or a block-wise shortcut would sit)"""
-    wd, seed, base = args
+    wd, seed, base = args[:3]
+    quick = len(args) > 3 and args[3]
     rnd = random.Random(seed)
     hwd = os.path.join(wd, "lsx%d" % seed)
     os.makedirs(hwd, exist_ok=True)
@@ -231,6 +232,9 @@ def large_suffix_history(args):
     keep = idx
     total = rnd.choice([150_000, 700_000, 1_300_000, 2_500_000, 4_000_000])
     rec = rnd.choice([3_000, 30_000, 100_000, 300_000])
+    if quick and total // rec > 120:
+        # the model compares the whole log after every operation: histories of more than ~250 operations are the thorough tier's
+        rec = max(rec, total // 100)
     removed = 0
     while removed < total:
         idx, uid = idx + 1, uid + 1
@@ -243,6 +247,8 @@ def large_suffix_history(args):
     ops.append({"op": "delete_from", "k": cut})
     frac = rnd.choice([0.25, 0.5, 0.8, 1.0, 1.2])
     rec2 = rec if frac == 1.0 and rnd.random() < 0.5 else rnd.choice([2_000, 20_000, 60_000, 250_000])
+    if quick and removed * frac // rec2 > 120:
+        rec2 = max(rec2, int(removed * frac) // 100)
     idx, again = cut - 1, 0
     while again < removed * frac:
         idx, uid = idx + 1, uid + 1
@@ -291,7 +297,7 @@ def drive(pid, tier, seed, bias, n_hist, n_ops, n_roll, rule, salt=0):
             rfuts = [ex.submit(rollover_history, (wd, seed * 100000 + salt + 40000 + i, base, variants[(i + seed) % len(variants)])) for i in range(n_roll)]
             xfuts = [ex.submit(exact_step_history, (wd, seed * 100000 + salt + 60000 + i, base, [0, -1, 1][i % 3])) for i in range(3 if tier == "quick" else 30)]
             xfuts += [ex.submit(big_record_history, (wd, seed * 100000 + salt + 65000 + i, base)) for i in range(3 if tier == "quick" else 24)]
-            xfuts += [ex.submit(large_suffix_history, (wd, seed * 100000 + salt + 67000 + i, base)) for i in range(10 if tier == "quick" else 120)]
+            xfuts += [ex.submit(large_suffix_history, (wd, seed * 100000 + salt + 67000 + i, base, tier == "quick")) for i in range(10 if tier == "quick" else 120)]
             for f in futs + rfuts + xfuts:
                 results.append(f.result())
         absorb(out, results)
